@@ -6,7 +6,8 @@ E1) decides "continue / switch" with V.bool(...) -- so the schedule is a vector 
 schedule tree, and tree exhaustion means every schedule within the bound (threads, preemptions, watched functions) was run.
 Exactly one worker runs at any time, so a run is deterministic given the decision vector and every counterexample is a
 replayable witness.  A worker that does not report within BLOCK_S seconds while it holds the turn is treated as blocked
-(e.g. on a lock held by a parked thread) and the turn is handed to another runnable thread.
+(e.g. on a lock held by a parked thread) and the turn is handed to another runnable thread; when no other thread could run, the
+verdict 'deadlock' is given only after DEADLOCK_S seconds of silence.
 """
 import contextlib
 import queue
@@ -14,6 +15,7 @@ import sys
 import threading
 
 BLOCK_S = 0.15
+DEADLOCK_S = 20.0
 
 
 class Worker:
@@ -69,9 +71,12 @@ def run_schedule(V, fns, watched, max_preemptions, max_points=400):
     blocked = set()
     workers[current].go.release()
     while not all(w.done for w in workers):
+        # a silent turn-holder is "blocked" only if some other thread could run instead; when it is the last runnable thread the
+        # verdict would be "deadlock", so it gets a long grace period first (a slow line under machine load is not a deadlock)
+        alternatives = [w.tid for w in workers if not w.done and w.tid != current and w.tid not in blocked]
         try:
             with quiet():
-                ev = events.get(timeout=BLOCK_S)
+                ev = events.get(timeout=BLOCK_S if alternatives else DEADLOCK_S)
         except queue.Empty:
             # the thread holding the turn is blocked (lock held by a parked thread): hand the turn on
             blocked.add(current)
